@@ -17,7 +17,7 @@ def run(tier):
         ])
         recipes = annot.usable_recipes(tier) + annot.synth_bph_recipes(5 if tier == "quick" else 100)
         cases = lib.pmap(annot.record_c11, recipes)
-        tables = annot.table_cases()
+        tables = annot.table_cases() + [annot.chem_table_case()]
         allc = cases + tables
         res, info = annot.validate("C11", allc, sc)
         rep.add_trace(res, {c["id"]: c for c in allc}, "C11")
@@ -72,7 +72,7 @@ def replay(doc):
         if case.get("kind") == "ann":
             recs = [annot.record_c11(case["recipe"])]
         else:
-            recs = [c for c in annot.table_cases() if c["id"] == case["id"]]
+            recs = [c for c in annot.table_cases() + [annot.chem_table_case()] if c["id"] == case["id"]]
         res, info = annot.validate("C11", recs, sc)
         rep.add_trace(res, {r["id"]: r for r in recs}, "C11")
         rep.cov["samples"] = [{"id": r["id"]} for r in recs]
